@@ -532,7 +532,10 @@ pub fn main(args: &[String]) {
                 // structured requests: single characters (everything but one glyph's share of every table is dropped and
                 // renumbered) and almost the whole font with every seventh glyph id left out (gaps under retained ids; long
                 // loca offsets in the big fonts)
-                let singles = (per / 4).max(2).min(cps.len());
+                // (every character of a variable font, up to 1200 / 6000: whether a variation region or a row of deltas survives
+                // depends on the one glyph)
+                let variable = f.table_data(Tag::new(b"HVAR")).is_some() || f.table_data(Tag::new(b"gvar")).is_some();
+                let singles = (if variable { if per >= 60 { 6000 } else { 1200 } } else { (per / 4).max(2) }).min(cps.len());
                 for k in 0..singles {
                     rep.evaluations += 1;
                     let cp = cps[(k * cps.len() / singles + rng.below((cps.len() / singles).max(1) as u64) as usize).min(cps.len() - 1)];
